@@ -76,7 +76,7 @@ def plan(tier):
     out = []
     smax = 2 if quick else 3
     for shape in rt.SHAPES:
-        if shape == "quant":
+        if shape in ("quant", "wrapunits"):
             continue
         for n in range(0, smax + 1):
             out.append((shape, "str", n, "default"))
@@ -92,6 +92,12 @@ def plan(tier):
                 out.append((shape, "t:datetime:%s:ms" % tz, 0, "default"))
         out.append((shape, "t:time:utc:any", 0, "default"))
     out.append(("single", "t:datetime:utc:ms", 0, "noz"))
+    # strings shaped like numbers, dates, times, zoned times: must come back as the same strings
+    for sh in ("dd:dd", "dd:dd-dd", "dd:dd:dd+dd:dd", "dddd-dd-dd", "dddd-dddTdd:dd+d", "d#d#", "dd#-d#", "d.dEd", "-d", "d_d"):
+        for shape in ("single", "seq"):
+            out.append((shape, "shape:" + sh, 0, "default"))
+    out.append(("wrapunits", "int", 2, "default"))
+    out.append(("wrapunits", "int", 2, "narrow"))
     for cfg in list(rt.CONFIGS) + list(rt.PVL_ONLY) + list(rt.PDS_ONLY):
         if cfg == "default":
             continue
